@@ -19,12 +19,55 @@ What(got, want) == IF SetOf(got) = SetOf(want) /\ Len(got) = Len(want) THEN "ord
                    ELSE IF SetOf(got) \subseteq SetOf(want) THEN "missing"
                    ELSE IF SetOf(want) \subseteq SetOf(got) THEN "extra"
                    ELSE IF {x.loc : x \in SetOf(got)} = {x.loc : x \in SetOf(want)} THEN "value" ELSE "other"
+\* ---------------------------------------------------------------- the as-implemented reading (names known findings only)
+\* jp.MatchHandler as it is written (jp/matchhandler.go, jp/match.go): a target is split at its first filter into Target and
+\* Rest; PathMatch lets a Slice match ANY index and compares an Nth literally (a negative index never matches); a container
+\* matched by the Target part of any target is collected (everything inside it is suppressed); at its end the FIRST
+\* matching target decides: no Rest -> one call with the container; Rest -> Locate(v, 1) + First(v): at most ONE call whose
+\* location and value are those of SOME match of Rest inside the container; a leaf is reported iff a target WITHOUT Rest
+\* matches it.  A recorded call sequence that deviates from Expected but EQUALS this reading is the known defect family
+\* (slice, negative index, trailing filter); anything else is a new violation.
+FirstFilter(p) == IF \E i \in 1..Len(p) : p[i].f = "filter" THEN CHOOSE i \in 1..Len(p) : p[i].f = "filter" /\ \A j \in 1..(i - 1) : p[j].f # "filter" ELSE 0
+TargetPart(p) == IF FirstFilter(p) = 0 THEN p ELSE SubSeq(p, 1, FirstFilter(p) - 1)
+RestPart(p) == IF FirstFilter(p) = 0 THEN <<>> ELSE SubSeq(p, FirstFilter(p), Len(p))
+StepMatchImpl(f, st) ==
+  CASE f.f = "child" -> IsK(st) /\ st.k = f.key
+    [] f.f = "nth" -> ~IsK(st) /\ st.i = f.i
+    [] f.f = "wild" -> TRUE
+    [] f.f = "union" -> \E j \in 1..Len(f.items) : f.items[j] = st
+    [] f.f = "slice" -> ~IsK(st)
+    [] OTHER -> FALSE
+RECURSIVE LocMatchImpl(_, _)
+LocMatchImpl(p, l) ==
+  IF p = <<>> THEN TRUE          \* PathMatch returns true once the target is used up: a PREFIX match (longer paths lie inside a collected container anyway)
+  ELSE IF Head(p).f = "root" THEN LocMatchImpl(Tail(p), l)
+  ELSE IF Head(p).f = "desc" THEN \E k \in 0..(Len(l) - 1) : LocMatchImpl(Tail(p), SubSeq(l, k + 1, Len(l)))   \* only non-empty suffixes are tried
+  ELSE l # <<>> /\ StepMatchImpl(Head(p), Head(l)) /\ LocMatchImpl(Tail(p), Tail(l))
+ImplOK(tg, d, got) ==
+  LET all == DocOrder(d)
+      hit(l) == \E t \in 1..Len(tg) : LocMatchImpl(TargetPart(tg[t]), l)
+      coll(l) == IsCont(At(d, l)) /\ hit(l)
+      inside(l) == \E q \in 1..Len(all) : coll(all[q]) /\ IsProperPrefix(all[q], l)
+      leafhit(l) == ~IsCont(At(d, l)) /\ \E t \in 1..Len(tg) : RestPart(tg[t]) = <<>> /\ LocMatchImpl(tg[t], l)
+      first(l) == CHOOSE t \in 1..Len(tg) : LocMatchImpl(TargetPart(tg[t]), l) /\ \A u \in 1..(t - 1) : ~LocMatchImpl(TargetPart(tg[u]), l)
+      inner(l) == LocsR(<<[f |-> "at"]>> \o RestPart(tg[first(l)]), At(d, l), <<>>, <<>>, At(d, l))
+      ncalls(l) == IF ~coll(l) THEN 1 ELSE IF RestPart(tg[first(l)]) = <<>> THEN 1 ELSE IF inner(l) = <<>> THEN 0 ELSE 1
+      sites == SelectSeq(all, LAMBDA l : ~inside(l) /\ (coll(l) \/ leafhit(l)) /\ ncalls(l) = 1)
+  IN /\ Len(got) = Len(sites)
+     /\ \A i \in 1..Len(sites) :
+          LET l == sites[i] IN
+          IF ~coll(l) \/ RestPart(tg[first(l)]) = <<>> THEN got[i] = [loc |-> l, val |-> At(d, l)]
+          ELSE LET m == inner(l) IN
+               /\ \E j \in 1..Len(m) : got[i].loc = l \o m[j].loc
+               /\ \E j \in 1..Len(m) : got[i].val = m[j].val
 Judge(k) ==
   LET want == Want(k)
       bad == SelectSeq(Trace[k].o, LAMBDA g : g.err \/ (\E i \in 1..Len(g.calls) : ~g.calls[i].normal) \/ Plain(g.calls) # want)
   IN [j \in 1..Len(bad) |-> [i |-> k, as |-> bad[j].as,
                              kind |-> IF bad[j].err THEN "error" ELSE IF \E i \in 1..Len(bad[j].calls) : ~bad[j].calls[i].normal THEN "path-not-normal" ELSE "wrong-calls",
-                             what |-> IF bad[j].err THEN "error" ELSE What(Plain(bad[j].calls), want),
+                             what |-> IF bad[j].err THEN "error"
+                                      ELSE IF (\A i \in 1..Len(bad[j].calls) : bad[j].calls[i].normal) /\ ImplOK(Trace[k].targets, Trace[k].doc, Plain(bad[j].calls)) THEN "as-implemented"
+                                      ELSE What(Plain(bad[j].calls), want),
                              nwant |-> Len(want), ngot |-> Len(bad[j].calls)]]
 CheckCase == /\ c <= NCases /\ c' = c + 1 /\ UNCHANGED <<doc, targets, evs, ctx, col, colLoc, calls>>
              /\ LET j == Judge(c) IN
